@@ -516,6 +516,11 @@ func (b *Buffer) cleanup() {
 			go func() {
 				defer timer.Stop() // just in case, ensure the timer gets stopped
 				defer func() {
+					// lock the buffer first (same order as the cleanup goroutine), so that the re-broadcast
+					// cannot happen between that goroutine's check and its wait on the cond (and be lost)
+					b.mutex.Lock()
+					defer b.mutex.Unlock()
+
 					// lock on the mutex, so that the timer removal and broadcast checking / performing is synced
 					mutex.Lock()
 					defer mutex.Unlock()
